@@ -20,6 +20,7 @@ EXPLANATION = (
     "return self.read(..., sync=False) with item[0]->nsel, item[1]->csel, or raises - no implicit None; (D4) the "
     "conversion vectors end with the unscaled sync segment (shared with C09). The numerical behaviour itself (exact "
     "float32 products, NumPy layout for every selector shape, mtscomp selectors) is NOT decided."
+    ' (D4/D4b) The conversion vectors are additionally decided on an extracted segment model for every small channel / sync count (zero sync channels included): one factor per saved channel, analog channels with their own generation / stream gain, sync channels last with factor 1.'
 )
 ASSUMPTIONS = [
     "numpy fancy/slice indexing semantics (model table): x[..., sel] gathers columns in selector order",
